@@ -4,6 +4,7 @@
   atomman/core/System.py by the history correspondence of harness/props/c06.py).
 -/
 import Proofs.C06_Aux
+import Proofs.C06_Observe
 
 namespace Atomman.C06
 set_option linter.unusedSimpArgs false
@@ -107,6 +108,12 @@ theorem inv_run {κ : Nat → String} {s : State} (h : InvK κ s) (hb : Boundary
   | sysNatypes i =>
     apply post_map_good
     exact Post.mono (inv_sysNatypes h i) (fun _ _ hq => hq.1.1.good)
+  | sysAtypes i =>
+    apply post_map_good
+    exact Post.mono (inv_sysAtypes h i) (fun _ _ hq => hq.1.1.good)
+  | composition i =>
+    apply post_map_good
+    exact Post.mono (inv_composition h i) (fun _ _ hq => hq.1.good)
   | sysPropGet i k ix =>
     show Post (getS >>= _) s _
     rw [post_bind_getS]
@@ -308,6 +315,74 @@ theorem symbolsSet_pads (s : State) (h : Inv s) (i : Nat) (hi : i < s.syss.lengt
   rw [hrun] at this
   obtain ⟨nt, hnt, hsym⟩ := this.2 rfl hi
   exact ⟨nt, hnt, hsym, by rw [hsym]; exact (padTo_length _ _).1, by rw [hsym]; exact (padTo_length _ _).2⟩
+
+
+/-! ## the observers and the lazily padded tuples behind them: read order is irrelevant -/
+
+/-- **closed form of every observer.**  On a system `i` whose atoms have `natypes = nt`, the reply to
+    `symbols` / `masses` / `natypes` / `atypes` / `composition` is a function of the *stored* tuples and of
+    `nt` alone (`symView` = stored symbols padded with `None` to `nt`, `ntView` = `max nt (len symView)`,
+    `massView` = stored masses padded to `ntView`, …), whatever padding has or has not happened yet. -/
+theorem observer_closed_form (s : State) (g : Getter) (i nt : Nat) (hi : i < s.syss.length)
+    (hnt : ntOf s i = .ok nt) : output s (g.op i) = g.view s i nt := by
+  show (stepWith false s (g.op i)).1 = _
+  rw [(stepWith_getter false s g i).1, if_pos hi, hnt]
+
+/-- **every view is padded**: never shorter than the number of atom types of the atoms (nor, for the
+    masses, than `System.natypes`), in *every* state — no invariant, no previous read is needed. -/
+theorem observers_padded (s : State) (i nt : Nat) :
+    nt ≤ (symView s i nt).length ∧ nt ≤ ntView s i nt ∧ (symView s i nt).length ≤ ntView s i nt ∧
+    ntView s i nt ≤ (massView s i nt).length ∧ nt ≤ (massView s i nt).length ∧
+    ((List.range (ntView s i nt)).map (· + 1)).length = ntView s i nt := by
+  have h1 : nt ≤ (symView s i nt).length := (padTo_length _ _).1
+  have h2 : nt ≤ ntView s i nt ∧ (symView s i nt).length ≤ ntView s i nt := by
+    unfold ntView; split <;> omega
+  have h3 : ntView s i nt ≤ (massView s i nt).length := (padTo_length _ _).1
+  exact ⟨h1, h2.1, h2.2, h3, Nat.le_trans h2.1 h3, by simp⟩
+
+/-- an observer only ever replaces a stored tuple by its own view: the state it leaves is
+    observationally equal to the one it found. -/
+theorem observer_keeps_views (s : State) (op : Op) (h : IsObs op) : ObsEq s (step s op) := obsEq_step s op h
+
+/-- **read order is irrelevant.**  After ANY sequence of observations (any getters, on any systems, in
+    any order, each of them free to pad hidden tuples) every observer replies exactly what it would
+    have replied had it been issued first. -/
+theorem read_order_irrelevant (s : State) (obs : List Op) (hobs : ∀ o ∈ obs, IsObs o) (g : Getter) (i : Nat) :
+    output (obs.foldl step s) (g.op i) = output s (g.op i) :=
+  output_obsEq (obsEq_foldl obs hobs s) g i
+
+/-- **every getter returns a padded tuple in every reachable state regardless of the read order.**
+    `ops` is any history (mutations and reads interleaved at will), `obs` any further sequence of reads;
+    whatever was or was not read, `symbols`, `masses`, `natypes` and `atypes` of system `i` reply the
+    padded views of the state the history reached, all at least `atoms.natypes` long. -/
+theorem observers_padded_any_order (ops obs : List Op) (hobs : ∀ o ∈ obs, IsObs o) (i nt : Nat)
+    (hi : i < (ops.foldl step init).syss.length) (hnt : ntOf (ops.foldl step init) i = .ok nt) :
+    ∃ (sy : List (Option String)) (ms : List (Option Rat)) (n : Nat),
+      output (obs.foldl step (ops.foldl step init)) (.symbolsGet i) = .ok (.syms sy) ∧
+      output (obs.foldl step (ops.foldl step init)) (.massesGet i) = .ok (.masses ms) ∧
+      output (obs.foldl step (ops.foldl step init)) (.sysNatypes i) = .ok (.nat n) ∧
+      output (obs.foldl step (ops.foldl step init)) (.sysAtypes i) = .ok (.nats ((List.range n).map (· + 1))) ∧
+      nt ≤ sy.length ∧ nt ≤ ms.length ∧ nt ≤ n ∧ sy.length ≤ n ∧ n ≤ ms.length := by
+  have hp := observers_padded (ops.foldl step init) i nt
+  refine ⟨symView (ops.foldl step init) i nt, massView (ops.foldl step init) i nt, ntView (ops.foldl step init) i nt,
+    ?_, ?_, ?_, ?_, hp.1, hp.2.2.2.2.1, hp.2.1, hp.2.2.1, hp.2.2.2.1⟩
+  · exact (read_order_irrelevant _ obs hobs .symbols i).trans (observer_closed_form _ .symbols i nt hi hnt)
+  · exact (read_order_irrelevant _ obs hobs .masses i).trans (observer_closed_form _ .masses i nt hi hnt)
+  · exact (read_order_irrelevant _ obs hobs .natypes i).trans (observer_closed_form _ .natypes i nt hi hnt)
+  · exact (read_order_irrelevant _ obs hobs .atypes i).trans (observer_closed_form _ .atypes i nt hi hnt)
+
+/-- what the getters return is also what they store: after reading `masses` the stored symbols and
+    masses *are* the views (so the next read takes the no-padding branch). -/
+theorem massesGet_stores (s : State) (i nt : Nat) (hi : i < s.syss.length) (hnt : ntOf s i = .ok nt) :
+    ((massesGet i s).2.sys i).symbols = symView s i nt ∧ ((massesGet i s).2.sys i).masses = massView s i nt := by
+  rw [massesGet_closed i s nt hi hnt]
+  have hi1 : i < (putSym s i (symView s i nt)).syss.length := by rw [putSym_len]; exact hi
+  constructor
+  · show ((putMass (putSym s i (symView s i nt)) i (massView s i nt)).sys i).symbols = _
+    rw [putMass_sys]; simp only [hi1, and_self, if_true]
+    rw [putSym_sys]; simp [hi]
+  · show ((putMass (putSym s i (symView s i nt)) i (massView s i nt)).sys i).masses = _
+    rw [putMass_sys]; simp [hi1]
 
 /-! ## refusals: one lemma per refusal branch (nothing is defaulted) -/
 
@@ -849,5 +924,22 @@ example : step exS (.setView 0 "atype" ⟨.int, [3], [.int 1, .int 0, .int 1]⟩
 -- extension: atoms_extend by an Atoms with a different property set (zero fill on both sides)
 example : (propGet 4 "q" none (step exS (.extendAtoms 1 0))).1
     = .ok ⟨.flt, [5], [.flt (5/2), .flt (1/2), .flt (1/2), .flt 9, .flt 7]⟩ := by decide +kernel
+
+/-- the stale-tuple scenario: two atom types with symbols and masses, then the number of atom types
+    grows to 4 *through the atoms*; the stored tuples are stale (length 2) yet `masses` read FIRST is
+    padded to 4, and so is everything else, in any read order. -/
+def exGrow : List Op := [exNew,
+  .mkSys 0 unitBox [true, true, true] (some [some "Al", some "Ni"]) (some [some 27, some (117/2)]),
+  .propSet 0 "atype" (some (.int 0)) ⟨.int, [], [.int 4]⟩]
+def exG : State := exGrow.foldl step init
+
+example : (exG.sys 0).symbols.length = 2 ∧ (exG.sys 0).masses.length = 2 ∧ ntOf exG 0 = .ok 4 := by decide +kernel
+example : output exG (.massesGet 0) = .ok (.masses [some 27, some (117/2), none, none]) := by decide +kernel
+example : output (step exG (.symbolsGet 0)) (.massesGet 0) = output exG (.massesGet 0) :=
+  read_order_irrelevant exG [.symbolsGet 0] (fun o ho => by simp at ho; subst ho; exact ⟨.symbols, 0, rfl⟩) .masses 0
+example : output exG (.composition 0) = .ok (.comp none) := by decide +kernel
+example : output (step exG (.symbolsSet 0 [some "Al", some "Ni", some "X", some "Al"])) (.composition 0)
+    = .ok (.comp (some "Al2Ni")) := by decide +kernel
+example : output exG (.sysAtypes 0) = .ok (.nats [1, 2, 3, 4]) := by decide +kernel
 
 end Atomman.C06
